@@ -272,6 +272,7 @@ class Executor:
         self.inline = [re.compile(x) for x in inline]
         self.pure = [re.compile(x) for x in pure]
         self.modifies = modifies or {}   # callee regex -> list of key prefixes the callee may write (everything else is preserved)
+        self.stop_at = []                # callee regexes: the path ends (outcome "stop") right before such a call
         self.decls = {}      # smt var name -> sort
         self.inputs = {}     # place key -> var name (first read of untouched input state)
         self.counter = itertools.count()
@@ -594,6 +595,15 @@ class Executor:
             bv = self.operand(st, fn, b, frame, av.s if isinstance(av, Val) else None)
             put(self.binop(m.group(1), av, bv))
             return
+        if m and m.group(1) == "Cmp":
+            a, b = split_top(m.group(2))
+            av = self.operand(st, fn, a, frame)
+            bv_ = self.operand(st, fn, b, frame, av.s)
+            lt = self.binop("Lt", av, bv_).t
+            eq_ = self.binop("Eq", av, bv_).t
+            self.clear_prefix(st, dst.key())
+            st.store[dst.key() + "#discr"] = Val("(ite %s %s (ite %s %s %s))" % (lt, bvconst(-1, 64), eq_, bvconst(0, 64), bvconst(1, 64)), ("bv", 64, True))
+            return
         if m and m.group(1) in ("AddWithOverflow", "SubWithOverflow", "MulWithOverflow"):
             a, b = split_top(m.group(2))
             av = self.operand(st, fn, a, frame)
@@ -614,6 +624,10 @@ class Executor:
             v = self.operand(st, fn, m.group(1), frame)
             if not isinstance(v, Val) and v[0] == "ref" and m.group(3) in ("Transmute", "PtrToPtr", "MutToConstPointer", "Unsize"):
                 st.refs[dst.key()] = v[1]
+                return
+            if not isinstance(v, Val) and v[0] == "agg" and m.group(3) == "Transmute" and sort_of_type(m.group(2)) is not None:
+                # single-field scalar wrapper (e.g. niche-typed Nanoseconds(u32)) reinterpreted as its field
+                put(self.read_key(st, v[1].key() + ".0", sort_of_type(m.group(2))))
                 return
             if not isinstance(v, Val) and v[0] == "agg" and m.group(3) == "Transmute" and m.group(2).strip().startswith(("*const", "*mut", "&")):
                 # single-pointer wrapper (NonNull / Unique) reinterpreted as a raw pointer
@@ -920,6 +934,10 @@ class Executor:
                             break
                     k -= 1
                 callee, argtext = callexpr[:k], callexpr[k + 1:-1]
+                if any(re.search(r, callee) for r in self.stop_at):
+                    st.stop_args = [self.operand(st, fn, a, frame) for a in split_top(argtext)]
+                    self.paths.append(Path(st, "stop", callee, fn))
+                    return
                 r = self.do_call(st, fn, dst_text, callee, split_top(argtext), frame)
                 if r is not None:
                     _, cfn, args = r
